@@ -419,12 +419,19 @@ class C19(Check):
                             {'exception': repr(exc)[:300]},
                             None)
             else:
+                if any(k != 'u' for k, u in log[n_parse:]):
+                    ctx.violate('every fetch goes through the fetcher the sheet was parsed with', w,
+                                {'fetched_by_the_default_fetcher': [u for k, u in log[n_parse:] if k != 'u']})
                 if log[n_parse:]:
                     ctx.violate('flattening fetches nothing: every target was fetched when the sheet was parsed',
                                 w, {'fetched_during_resolveImports': log[n_parse:]},
                                 known='C19-unavailable-refetched' if orig.unavail else None)
                 if not cyc:
                     flat = V.meaning(S.shallow(flat_rules), case['href'], case['vfs'])
+                    left = V.unmerged_imports(orig, flat)
+                    if left:
+                        ctx.violate('an @import without media whose target is available is merged, not kept', w,
+                                    {'kept': left})
                     ds = V.compare_meaning(orig, flat)
                     ctx.count('flatten:meaning-' + ('same' if not ds else 'differs'))
                     seen = set()
@@ -477,6 +484,10 @@ class C19(Check):
         flat = V.meaning(S.shallow(S.p_rules(back.cssRules, deep=False)), case['href'], case['vfs'], drop_empty=True,
                          minified=minify)
         orig = V.meaning(case['main'], case['href'], case['vfs'], drop_empty=True, minified=minify)
+        left = V.unmerged_imports(orig, flat)
+        if left:
+            ctx.violate('csscombine merges an @import without media whose target is available', dict(w, output=text),
+                        {'kept': left})
         seen = set()
         for kind, detail, expl in V.compare_meaning(orig, flat):
             if (kind, expl) in seen:
